@@ -307,6 +307,9 @@ def ext_fetcher_rules(ctx, rule):
     et = [x for x in g.nodes if x.kind == 'stmt' and isinstance(x.ast, ast.Assign) and norm(x.ast.targets[0]) == 'extended_type']
     ok = len(mp) == 1 and norm(mp[0][1].func.value) == 'self._toc.get_element_by_id(var_id)' and len(et) == 1 and norm(et[0].ast.value) == 'pk.data[3]' and \
         fact_key('extended_type == ParamTocElement.EXTENDED_PERSISTENT') in g.fact_keys_at(mp[0][0]) and fact_key('self._req_param == var_id') in g.fact_keys_at(mp[0][0])
+    # the completion callback is what signals `connected`: the marker of the last element has to be in place when it runs
+    okm = len(mp) == 1 and len(done) == 1 and g.path_avoiding(done[0][0], [mp[0][0]]) is None
+    ctx.inst(rule, cbk, 'ext:marked-before-done', okm, 'no marker is set after the completion callback has run (the table handed to `connected` is final)')
     ctx.inst(rule, cbk, 'ext:marks-element-of-answered-id', ok, 'the element with the answered id is marked persistent exactly when byte 3 is EXTENDED_PERSISTENT')
     run = E.method('run')
     g = cfg_of(run)
@@ -491,6 +494,86 @@ def log_type_table_rules(ctx, rule='R6'):
 
 
 
+def generation_switch_rules(ctx, rule='R5'):
+    """Every place that chooses between the legacy and the current protocol generation (`self._useV2 = ...`, in the table
+    fetcher, the log and the parameter subsystem) switches at protocol version 4: the fetcher, the requester and the decoder of one
+    connection must agree on the index width.  Shared with C04 (write / read index) and C05 (block records)."""
+    m = ctx.model
+    sites = []
+    PS = m.cls('cflib/crazyflie/platformservice.py', 'PlatformService')
+
+    def v2_threshold(expr):
+        """smallest protocol version for which the generation switch `expr` is true: `version >= k` -> k, `version > k` -> k + 1; the
+        version may be read through get_protocol_version() or through a one-line PlatformService predicate"""
+        e = expr
+        if isinstance(e, ast.Call) and isinstance(e.func, ast.Attribute) and norm(e.func.value).endswith('.platform') and not e.args and PS.has(e.func.attr) \
+                and e.func.attr != 'get_protocol_version':
+            body = effective(PS.method(e.func.attr).node.body)
+            if len(body) == 1 and isinstance(body[0], ast.Return) and body[0].value is not None:
+                e = body[0].value
+        if isinstance(e, ast.Compare) and len(e.ops) == 1:
+            def is_version(x):
+                return norm(x).endswith('get_protocol_version()') or norm(x) in ('self._protocolVersion', 'self._protocol_version')
+            k = fold(e.comparators[0], Scope(m.mod('cflib/crazyflie/platformservice.py'), PS)) if is_version(e.left) else \
+                fold(e.left, Scope(m.mod('cflib/crazyflie/platformservice.py'), PS)) if is_version(e.comparators[0]) else None
+            if isinstance(k, int):
+                op = type(e.ops[0])
+                if not is_version(e.left):
+                    op = {ast.Lt: ast.Gt, ast.LtE: ast.GtE, ast.Gt: ast.Lt, ast.GtE: ast.LtE}.get(op, op)
+                return {ast.GtE: k, ast.Gt: k + 1}.get(op)
+        return None
+    for path in (TOC, LOG, PAR):
+        for f in m.mod(path).all_funcs():
+            for s_ in walk_own(f.node):
+                if isinstance(s_, ast.Assign) and norm(s_.targets[0]) == 'self._useV2' and 'platform' in norm(s_.value):
+                    sites.append((f, s_.value))
+    ctx.need(len(sites) >= 4, 'expected >= 4 protocol-generation switches, found %d' % len(sites))
+    for f, v in sites:
+        th = v2_threshold(v)
+        ctx.inst(rule, f, 'v2-switch', th == 4, 'generation switch `%s` is true from protocol version %s on, expected 4' % (norm(v), th))
+
+
+
+def fetch_completion_rules(ctx, rule, fetcher, cb, g, reqs):
+    """The download is declared complete on exactly three branches - usable cache hit, empty table, last index answered - and a miss
+    with a non-empty table requests element 0, then the next one while more remain.  Shared with C02 (connected is signalled only
+    when the tables are complete)."""
+    fins = g.find(lambda n: method_call(n, '_toc_fetch_finished'))
+    ctx.need(len(fins) >= 3, '_new_packet_cb: expected 3 completion sites, found %d' % len(fins))
+    # the branch that adopts the cached table: `self.toc.toc = <cache result>`
+    adopt = [n for n in g.nodes if n.kind == 'stmt' and isinstance(n.ast, ast.Assign) and norm(n.ast.targets[0]) == 'self.toc.toc']
+    ctx.need(len(adopt) == 1, '_new_packet_cb: adoption of the cached table not found')
+    hit_edges = [e for e in g.dominating_edges(adopt[0]) if e.label and e.label[0] == 'cond' and norm(adopt[0].ast.value) in norm(e.label[1])]
+    ctx.need(len(hit_edges) == 1, '_new_packet_cb: cache-hit test not recognised')
+    hit_edge = hit_edges[0]
+    miss_edge = [e for e in hit_edge.src.succ if e.label and e.label[0] == 'cond' and e is not hit_edge][0]
+
+    def on(edge, n):
+        return ('e', edge.id) in (g.dom().get(('n', n.id)) or ())
+    kinds = set()
+    for n, x in fins:
+        keys = g.fact_keys_at(n)
+        if on(hit_edge, n):
+            k = 'cache-hit'
+        elif fact_key('self.nbr_of_items > 0', False) in keys and on(miss_edge, n):
+            k = 'empty-table'
+        elif fact_key('self.requested_index < self.nbr_of_items - 1', False) in keys and fact_key('ident != self.requested_index', False) in keys:
+            k = 'last-index'
+        else:
+            k = 'unexpected@%d' % n.line
+            ctx.inst(rule, cb, 'completion:' + k, False, 'download completion signalled under %s' % sorted(keys))
+            continue
+        kinds.add(k)
+        ctx.inst(rule, cb, 'completion:' + k, True, 'completion on the %s branch' % k)
+    ctx.inst(rule, cb, 'completion-branches', kinds == {'cache-hit', 'empty-table', 'last-index'}, 'completion branches found: %s' % sorted(kinds))
+    more = [(n, x) for n, x in reqs if fact_key('self.requested_index < self.nbr_of_items - 1', True) in g.fact_keys_at(n)]
+    ctx.inst(rule, cb, 'continue-while-more', len(more) == 1, 'the next element is requested while requested_index < nbr_of_items - 1')
+    first = [(n, x) for n, x in reqs if fact_key('self.nbr_of_items > 0', True) in g.fact_keys_at(n) and on(miss_edge, n)]
+    ctx.inst(rule, cb, 'miss-starts-download', len(first) == 1, 'a cache miss with a non-empty table requests element 0')
+    z = [n for n in g.nodes if n.kind == 'stmt' and isinstance(n.ast, ast.Assign) and norm(n.ast.targets[0]) == 'self.requested_index']
+    ctx.inst(rule, cb, 'download-starts-at-0', len(z) == 1 and fold_in(cb, z[0].ast.value) == 0, 'download starts at index 0')
+
+
 def check(ctx):
     m = ctx.model
     fetcher, cb, g, pkv, adds, reqs = fetch_guard_rules(ctx, 'R1')
@@ -609,38 +692,7 @@ def check(ctx):
             ctx.inst('R4', rq, 'index-split-little-endian:' + role, ok, 'request bytes must be index[7:0], index[15:8]; low=%s high=%s' % (B_.describe(lo, 8), B_.describe(hi, 8)))
 
     # ---- R5: version switch -----------------------------------------------------------------------
-    sites = []
-    PS = m.cls('cflib/crazyflie/platformservice.py', 'PlatformService')
-
-    def v2_threshold(expr):
-        """smallest protocol version for which the generation switch `expr` is true: `version >= k` -> k, `version > k` -> k + 1; the
-        version may be read through get_protocol_version() or through a one-line PlatformService predicate"""
-        e = expr
-        if isinstance(e, ast.Call) and isinstance(e.func, ast.Attribute) and norm(e.func.value).endswith('.platform') and not e.args and PS.has(e.func.attr) \
-                and e.func.attr != 'get_protocol_version':
-            body = effective(PS.method(e.func.attr).node.body)
-            if len(body) == 1 and isinstance(body[0], ast.Return) and body[0].value is not None:
-                e = body[0].value
-        if isinstance(e, ast.Compare) and len(e.ops) == 1:
-            def is_version(x):
-                return norm(x).endswith('get_protocol_version()') or norm(x) in ('self._protocolVersion', 'self._protocol_version')
-            k = fold(e.comparators[0], Scope(m.mod('cflib/crazyflie/platformservice.py'), PS)) if is_version(e.left) else \
-                fold(e.left, Scope(m.mod('cflib/crazyflie/platformservice.py'), PS)) if is_version(e.comparators[0]) else None
-            if isinstance(k, int):
-                op = type(e.ops[0])
-                if not is_version(e.left):
-                    op = {ast.Lt: ast.Gt, ast.LtE: ast.GtE, ast.Gt: ast.Lt, ast.GtE: ast.LtE}.get(op, op)
-                return {ast.GtE: k, ast.Gt: k + 1}.get(op)
-        return None
-    for path in (TOC, LOG, PAR):
-        for f in m.mod(path).all_funcs():
-            for s_ in walk_own(f.node):
-                if isinstance(s_, ast.Assign) and norm(s_.targets[0]) == 'self._useV2' and 'platform' in norm(s_.value):
-                    sites.append((f, s_.value))
-    ctx.need(len(sites) >= 4, 'expected >= 4 protocol-generation switches, found %d' % len(sites))
-    for f, v in sites:
-        th = v2_threshold(v)
-        ctx.inst('R5', f, 'v2-switch', th == 4, 'generation switch `%s` is true from protocol version %s on, expected 4' % (norm(v), th))
+    generation_switch_rules(ctx, 'R5')
 
     # ---- R6: type tables ----------------------------------------------------------------------------
     pe = m.cls(PAR, 'ParamTocElement')
@@ -679,40 +731,7 @@ def check(ctx):
     cache_codec_rules(ctx, 'R12')      # cache present: cached elements carry every attribute, `extended` included (shared with C11.R4)
 
     # ---- R9: completion ------------------------------------------------------------------------------------------
-    fins = g.find(lambda n: method_call(n, '_toc_fetch_finished'))
-    ctx.need(len(fins) >= 3, '_new_packet_cb: expected 3 completion sites, found %d' % len(fins))
-    # the branch that adopts the cached table: `self.toc.toc = <cache result>`
-    adopt = [n for n in g.nodes if n.kind == 'stmt' and isinstance(n.ast, ast.Assign) and norm(n.ast.targets[0]) == 'self.toc.toc']
-    ctx.need(len(adopt) == 1, '_new_packet_cb: adoption of the cached table not found')
-    hit_edges = [e for e in g.dominating_edges(adopt[0]) if e.label and e.label[0] == 'cond' and norm(adopt[0].ast.value) in norm(e.label[1])]
-    ctx.need(len(hit_edges) == 1, '_new_packet_cb: cache-hit test not recognised')
-    hit_edge = hit_edges[0]
-    miss_edge = [e for e in hit_edge.src.succ if e.label and e.label[0] == 'cond' and e is not hit_edge][0]
-
-    def on(edge, n):
-        return ('e', edge.id) in (g.dom().get(('n', n.id)) or ())
-    kinds = set()
-    for n, x in fins:
-        keys = g.fact_keys_at(n)
-        if on(hit_edge, n):
-            k = 'cache-hit'
-        elif fact_key('self.nbr_of_items > 0', False) in keys and on(miss_edge, n):
-            k = 'empty-table'
-        elif fact_key('self.requested_index < self.nbr_of_items - 1', False) in keys and fact_key('ident != self.requested_index', False) in keys:
-            k = 'last-index'
-        else:
-            k = 'unexpected@%d' % n.line
-            ctx.inst('R9', cb, 'completion:' + k, False, 'download completion signalled under %s' % sorted(keys))
-            continue
-        kinds.add(k)
-        ctx.inst('R9', cb, 'completion:' + k, True, 'completion on the %s branch' % k)
-    ctx.inst('R9', cb, 'completion-branches', kinds == {'cache-hit', 'empty-table', 'last-index'}, 'completion branches found: %s' % sorted(kinds))
-    more = [(n, x) for n, x in reqs if fact_key('self.requested_index < self.nbr_of_items - 1', True) in g.fact_keys_at(n)]
-    ctx.inst('R9', cb, 'continue-while-more', len(more) == 1, 'the next element is requested while requested_index < nbr_of_items - 1')
-    first = [(n, x) for n, x in reqs if fact_key('self.nbr_of_items > 0', True) in g.fact_keys_at(n) and on(miss_edge, n)]
-    ctx.inst('R9', cb, 'miss-starts-download', len(first) == 1, 'a cache miss with a non-empty table requests element 0')
-    z = [n for n in g.nodes if n.kind == 'stmt' and isinstance(n.ast, ast.Assign) and norm(n.ast.targets[0]) == 'self.requested_index']
-    ctx.inst('R9', cb, 'download-starts-at-0', len(z) == 1 and fold_in(cb, z[0].ast.value) == 0, 'download starts at index 0')
+    fetch_completion_rules(ctx, 'R9', fetcher, cb, g, reqs)
     ff = fetcher.method('_toc_fetch_finished')
     body = [norm(s.value) for s in ff.node.body if isinstance(s, ast.Expr) and isinstance(s.value, ast.Call)]
     def calls_through(fn_, depth=0):
@@ -755,6 +774,7 @@ def check(ctx):
 
 
 VARIANTS = [
+    M('R11', PAR, "                if extended_type == ParamTocElement.EXTENDED_PERSISTENT:\n                    self._toc.get_element_by_id(var_id).mark_persistent()\n                self._count -= 1\n                if self._count == 0:\n                    if self._done_callback is not None:\n                        self._done_callback()\n                    self._close()\n", "                self._count -= 1\n                if self._count == 0:\n                    if self._done_callback is not None:\n                        self._done_callback()\n                    self._close()\n                if extended_type == ParamTocElement.EXTENDED_PERSISTENT:\n                    self._toc.get_element_by_id(var_id).mark_persistent()\n", 'marker set after the completion callback'),
     M('R11', PAR, "                self._req_param = -1\n                try:", "                try:", 'fetcher stays tuned to the answered id'),
     M('R11', PAR, "                    self._toc.get_element_by_id(var_id).mark_persistent()", "                    self._toc.get_element_by_id(self._count).mark_persistent()", 'wrong element marked'),
     M('R1', TOC, "            if ident != self.requested_index:\n                return\n", "", 'index check dropped'),
